@@ -84,7 +84,7 @@ def run_one(base, case, run):
     p_look = [spell(os.path.join(loc, lookup_place(case, run, r), r)) for r in case.get('lookup_roots', [])]
 
     def command(args):
-        cmd = [PY, '-m', 'nunavut', '--target-language', case['lang']]
+        cmd = [PY] + list(run.get('py_flags') or []) + ['-m', 'nunavut', '--target-language', case['lang']]
         if case.get('config_order'):
             cmd += ['-c'] + [spell(os.path.join(loc, c)) for c in case['config_order']]
         cmd += ['-O', p_out] + list(args)
@@ -113,6 +113,9 @@ def run_one(base, case, run):
                            errors='replace', timeout=300)
         pre_log = q.stdout[-300:] if q.returncode else ''
         time.sleep(0.05)
+    if '-S' in (run.get('py_flags') or []):
+        # without `site` the interpreter does not add site-packages: name them explicitly (pydsdl, yaml, ...)
+        env['PYTHONPATH'] = env['PYTHONPATH'] + os.pathsep + os.pathsep.join(p for p in sys.path if 'site-packages' in p)
     for k, v in (run.get('env_extra') or {}).items():
         if v is None:
             env.pop(k, None)
